@@ -14,7 +14,7 @@ import (
 func init() {
 	register(&propDef{
 		ID:          "C07",
-		Explanation: "Gate, ownership and finite-table rules for inter-node correlation, decided on SSA/AST: (1) R-GATE: in the expiry scan the export callback is reachable only through the true edge of the popped record's ReadyToSend; (2) R-OWNER: ReadyToSend is set to true only (i) on the existing-flow branch under correlationRequired && !ReadyToSend && !areRecordsFromSameNode, after correlateRecords whose error edge returns, together with areCorrelatedFieldsFilled = true, or (ii) at creation under !correlationRequired; no other store exists; (3) retry bound: waitForReadyToSendRetries is written only at creation (0) and by the single '+1' in the not-ready branch of the scan, is compared with MaxRetries, the '>' edge deletes the flow and the other edge re-arms both deadlines and re-pushes (C06's typestate rule covers the push); (4) R-TABLE: isCorrelationRequired is evaluated by abstract execution of its CFG for EVERY combination of flow type (0..4), egress rule action (absent, 0..4) and ingress rule action (absent, 0..4) - 180 cases, complete - and must equal InterNode && !(egress in {Drop, Reject}) && !(ingress == Reject); (5) sibling agreement in correlateRecords: each data-type case reads with the getter and writes with the setter of the same value type, both declared by that type's concrete element, guarded by a non-empty test, on the element of the same field name. Not decided: arrival-order histories beyond the per-record transition; the user-supplied correlateFields list. Later additions: the non-empty guard of each correlated copy is an inequality with the zero value; every path of the !correlationRequired branch sets ReadyToSend before the insertion; nil is returned only after the map insertion.",
+		Explanation: "Gate, ownership and finite-table rules for inter-node correlation, decided on SSA/AST: (1) R-GATE: in the expiry scan the export callback is reachable only through the true edge of the popped record's ReadyToSend; (2) R-OWNER: ReadyToSend is set to true only (i) on the existing-flow branch under correlationRequired && !ReadyToSend && !areRecordsFromSameNode, after correlateRecords whose error edge returns, together with areCorrelatedFieldsFilled = true, or (ii) at creation under !correlationRequired; no other store exists; (3) retry bound: waitForReadyToSendRetries is written only at creation (0) and by the single '+1' in the not-ready branch of the scan, is compared with MaxRetries, the '>' edge deletes the flow and the other edge re-arms both deadlines and re-pushes (C06's typestate rule covers the push); (4) R-TABLE: isCorrelationRequired is evaluated by abstract execution of its CFG for EVERY combination of flow type (0..4), egress rule action (absent, 0..4) and ingress rule action (absent, 0..4) - 180 cases, complete - and must equal InterNode && !(egress in {Drop, Reject}) && !(ingress == Reject); (5) sibling agreement in correlateRecords: each data-type case reads with the getter and writes with the setter of the same value type, both declared by that type's concrete element, guarded by a non-empty test, on the element of the same field name. Not decided: arrival-order histories beyond the per-record transition; the user-supplied correlateFields list. Later additions: the non-empty guard of each correlated copy is an inequality with the zero value; every path of the !correlationRequired branch sets ReadyToSend before the insertion; nil is returned only after the map insertion. Round-five additions: the existing record's correlated field is looked up by the name of the field being copied (not by position or by another name).",
 		Assume:      []string{"rule action / flow type constants are those of pkg/registry (lifted from the source)"},
 		Run:         runC07,
 	})
